@@ -166,8 +166,10 @@ Definition parse_timeout (o : option string) : gen_error + option Q :=
               match to_float s with Some q => inr (Some q) | None => inl (ErrBadDuration s) end
   end.
 
-(* RetryInfo + the keyword arguments the template prints for it; [t] is the method's timeout *)
-Definition emit_policy (rp : retry_policy) (t : option Q) : gen_error + emitted_retry :=
+(* wrappers.RetryInfo as _get_retry_and_timeout builds it (max_attempts is stored but never printed) *)
+Record retry_info := mkRI { ri_initial : Q; ri_max : Q; ri_multiplier : Q; ri_classes : list string }.
+
+Definition parse_policy (rp : retry_policy) : gen_error + retry_info :=
   match duration_or_zero (rp_initial rp) with
   | inl e => inl e
   | inr ib =>
@@ -176,30 +178,44 @@ Definition emit_policy (rp : retry_policy) (t : option Q) : gen_error + emitted_
       | inr mb =>
           match classes_of (rp_codes rp) with
           | inl e => inl e
-          | inr ks =>
-              let mult := match rp_multiplier rp with Some m => m | None => 0 end in
-              inr (mkER (truthy ib) (truthy mb) (truthy mult) (sort_set ks) t)
+          | inr ks => inr (mkRI ib mb (match rp_multiplier rp with Some m => m | None => 0 end) (sort_set ks))
           end
       end
   end.
 
-(* the row of one method, given the entry that applies to it (None: no entry) *)
-Definition emit_entry (mc : option method_config) : gen_result :=
+(* _get_retry_and_timeout for the entry that applies (None: no entry): (retry, timeout) *)
+Definition entry_info (mc : option method_config) : gen_error + (option retry_info * option Q) :=
   match mc with
-  | None => GenOk (mkE None None)
+  | None => inr (None, None)
   | Some mc =>
       match parse_timeout (mc_timeout mc) with
-      | inl e => GenError e
+      | inl e => inl e
       | inr t =>
           match mc_retry mc with
-          | None => GenOk (mkE None t)
-          | Some rp => match emit_policy rp t with
-                       | inl e => GenError e
-                       | inr er => GenOk (mkE (Some er) t)
+          | None => inr (None, t)
+          | Some rp => match parse_policy rp with
+                       | inl e => inl e
+                       | inr ri => inr (Some ri, t)
                        end
           end
       end
   end.
+
+(* the template: keyword arguments printed for a method with this retry and timeout *)
+Definition render_retry (ri : retry_info) (t : option Q) : emitted_retry :=
+  mkER (truthy (ri_initial ri)) (truthy (ri_max ri)) (truthy (ri_multiplier ri)) (ri_classes ri) t.
+Definition render (ri : option retry_info) (t : option Q) : emitted :=
+  mkE (option_map (fun r => render_retry r t) ri) t.
+
+(* the row of one method, given the entry that applies to it *)
+Definition emit_entry (mc : option method_config) : gen_result :=
+  match entry_info mc with
+  | inl e => GenError e
+  | inr (ri, t) => GenOk (render ri t)
+  end.
+
+Definition method_info (cfg : list method_config) (service method : string) : gen_error + (option retry_info * option Q) :=
+  entry_info (lookup cfg service method).
 
 Definition emit (cfg : list method_config) (service method : string) : gen_result :=
   emit_entry (lookup cfg service method).
@@ -330,6 +346,15 @@ Definition final_eqb (a b : final) : bool :=
   | FSurfaced x, FSurfaced y | FRetryError x, FRetryError y => String.eqb x y
   | _, _ => false
   end.
+Definition ri_eqb (a b : retry_info) : bool :=
+  Qeq_bool (ri_initial a) (ri_initial b) && Qeq_bool (ri_max a) (ri_max b) && Qeq_bool (ri_multiplier a) (ri_multiplier b)
+  && list_eqb String.eqb (ri_classes a) (ri_classes b).
+Definition info_eqb (a b : gen_error + (option retry_info * option Q)) : bool :=
+  match a, b with
+  | inl x, inl y => gen_error_eqb x y
+  | inr (r, t), inr (r', t') => option_eqb ri_eqb r r' && optq_eqb t t'
+  | _, _ => false
+  end.
 (* observed numbers are floating point: a sleep may exceed the exact one by rounding only *)
 Definition q_close (eps a b : Q) : bool := Qle_bool (a - eps) b && Qle_bool b (a + eps).
 Definition trace_close (eps tol : Q) (model : trace) (attempts : nat) (sleeps : list Q) (timeouts : list (option Q)) (f : final) : bool :=
@@ -337,7 +362,7 @@ Definition trace_close (eps tol : Q) (model : trace) (attempts : nat) (sleeps : 
   && list_eqb (q_close eps) (t_sleeps model) sleeps
   && list_eqb (fun m o => match m, o with
                           | None, None => true
-                          | Some x, Some y => Qle_bool (x - tol) y && Qle_bool y (x + eps)
+                          | Some x, Some y => Qle_bool (x - tol) y && Qle_bool y (x + tol)
                           | _, _ => false
                           end) (t_timeouts model) timeouts
   && final_eqb (t_final model) f.
